@@ -301,6 +301,93 @@ theorem pt_always_label_or_zero (fuel : Nat) (body : Stmt) (hwf : WF body) :
 /-- the state after PT_INIT (and the zero-initialised statics) is consistent -/
 theorem good_init (body : Stmt) : Good body St.init.me := Or.inl rfl
 
+/-- a chain of real invocations of a child function: the first from state `stc`, each later one from
+the state its predecessor left; all but the last return yielded/waiting, the last one exited/failed.
+`t` = all their effects, in order. -/
+inductive Spins (fuel : Nat) (ch : Stmt) : St → List Ev → St → Prop
+  | done {stc c st' t} : invoke fuel ch stc = some (.code c st' t) → c.blocking = false → Spins fuel ch stc t st'
+  | again {stc c st1 t t' st'} : invoke fuel ch stc = some (.code c st1 t) → c.blocking = true →
+      Spins fuel ch st1 t' st' → Spins fuel ch stc (t ++ t') st'
+
+theorem invoke_mono {f f' : Nat} (hf : f ≤ f') {ch st res} (h : invoke f ch st = some res) : invoke f' ch st = some res := by
+  unfold invoke at h ⊢
+  cases hent : entryOf ch st.me.pt with
+  | none => rw [hent] at h; exact h
+  | some e =>
+    rw [hent] at h; dsimp only at h ⊢
+    cases hx : exec f ch e .yielded 0 st with
+    | none => rw [hx] at h; cases h
+    | some r => rw [hx] at h; rw [exec_mono hf hx]; exact h
+
+theorem Spins.mono {f f' : Nat} (hf : f ≤ f') {ch stc t st'} (h : Spins f ch stc t st') : Spins f' ch stc t st' := by
+  induction h with
+  | done h1 h2 => exact .done (invoke_mono hf h1) h2
+  | again h1 h2 _ ih => exact .again (invoke_mono hf h1) h2 ih
+
+theorem St.enter_wrap (st st2 : St) (l : Nat) : (st.wrap l st2).enter l = st2 := by
+  simp [St.enter, St.wrap, PtSt.kid_setKid]
+theorem St.wrap_wrap (st st2 stX : St) (l : Nat) : (st.wrap l st2).wrap l stX = st.wrap l stX := by
+  simp [St.wrap, PtSt.setKid_setKid]
+
+theorem spin_runs (k : Label) (ch : Stmt) : ∀ fuel e res n st r, exec fuel (spin k ch) e res n st = some r →
+    (∃ t, r = .abort t) ∨ ∃ stc' t, r = .normal (st.wrap k stc') res n t ∧ Spins fuel ch (st.enter k) t stc' := by
+  intro fuel
+  induction fuel with
+  | zero => intro e res n st r h; rw [exec_spin_zero] at h; cases h
+  | succ f ih =>
+    intro e res n st r h
+    rw [exec_spin_succ] at h
+    cases hent : entryOf ch (st.me.kid k).pt with
+    | none => rw [hent] at h; simp only [Option.some.injEq] at h; subst h; exact Or.inl ⟨_, rfl⟩
+    | some e' =>
+      rw [hent] at h; dsimp only at h
+      have hinv : ∀ o, exec f ch e' .yielded 0 (st.enter k) = some o →
+          invoke (f + 1) ch (st.enter k) = some (match o with
+            | .normal st1 _ _ t => .code .exited st1 t
+            | .ret c st1 _ t => .code c st1 t
+            | .abort t => .abort t) := by
+        intro o ho
+        have hent' : entryOf ch (st.enter k).me.pt = some e' := hent
+        simp only [invoke, hent', exec_mono (Nat.le_succ f) ho]
+        cases o <;> rfl
+      cases hx : exec f ch e' .yielded 0 (st.enter k) with
+      | none => rw [hx] at h; cases h
+      | some o =>
+        rw [hx] at h
+        have hi := hinv o hx
+        cases o with
+        | abort t => simp only [spinPost, Option.some.injEq] at h; subst h; exact Or.inl ⟨_, rfl⟩
+        | normal st2 r2 n2 t =>
+          simp only [spinPost, Option.some.injEq] at h; subst h
+          exact Or.inr ⟨st2, t, rfl, .done hi rfl⟩
+        | ret c st2 n2 t =>
+          simp only [spinPost] at h
+          by_cases hb : c.blocking = true
+          · rw [if_pos hb] at h
+            rcases Option.map_eq_some_iff.1 h with ⟨r', hr', rfl⟩
+            rcases ih none res n _ r' hr' with ⟨t', rfl⟩ | ⟨stc', t', rfl, hs⟩
+            · exact Or.inl ⟨_, rfl⟩
+            · rw [St.enter_wrap] at hs; rw [St.wrap_wrap]
+              exact Or.inr ⟨stc', t ++ t', rfl, .again hi hb (hs.mono (Nat.le_succ f))⟩
+          · rw [if_neg hb] at h; simp only [Option.some.injEq] at h; subst h
+            exact Or.inr ⟨st2, t, rfl, .done hi (by simpa using hb)⟩
+
+/-- **PT_CALL runs the child to completion**: the child is initialised, then really invoked again and
+again — each time continuing where it blocked — until it returns exited or failed; the caller never
+returns in between (no blocking, its budget and `pt_spawn_res` untouched) and then goes on; the
+effects are the child's, in order -/
+theorem call_runs_to_completion (fuel : Nat) (k : Label) (ch : Stmt) (e : Option Label) (res : Code) (n : Nat) (st : St)
+    (r : Out) (hwf : WF ch) (h : exec fuel (call k ch) e res n st = some r) :
+    ∃ stc' t, r = .normal ((st.initKid k).wrap k stc') res n t ∧ ((st.initKid k).enter k).me.pt = 0 ∧
+      Spins fuel ch ((st.initKid k).enter k) t stc' := by
+  have hk : ((st.initKid k).me.kid k).pt = 0 := by
+    simp [St.initKid, PtSt.setPt, PtSt.kid, PtSt.setKid, PtSt.kids, PtSt.pt]
+  rw [exec_call] at h
+  have hP := inv_spin (k := k) hwf fuel (fun f _ => inv_at f ch) none res n (st.initKid k) r (Or.inl hk) h
+  rcases spin_runs k ch fuel none res n _ r h with ⟨t, rfl⟩ | ⟨stc', t, hr, hs⟩
+  · exact hP.elim
+  · exact ⟨stc', t, hr, hk, hs⟩
+
 /-! ## Non-vacuity: a concrete body with a blocking point in a loop in a conditional, a child spawned
 from inside a loop, PT_WAIT_UNTIL with a side-effecting condition, PT_CALL and PT_CHILD_OK -/
 
@@ -319,6 +406,7 @@ through a child spawned inside the loop (twice, restarted each time), a PT_CALL 
 theorem demo_seq : seqRun 50 demoL 20 St.init =
     some [.eff 1, .ret .yielded, .eff 7, .ret .waiting, .eff 3, .ret .yielded, .eff 7, .ret .waiting, .eff 3,
           .eff 5, .ret .waiting, .ret .exited] := by
+  set_option linter.unusedSimpArgs false in
   simp [demoL, demo, relabel, seqRun, exec, block, waitLoop, evalCond, St.init, St.bump, St.setVar, St.setPt, St.initKid, St.enter, St.wrap,
     entryOf, labels, PtSt.kid, PtSt.setKid, PtSt.setPt, PtSt.pt, PtSt.kids, Out.prepend, Code.blocking]
 
@@ -326,5 +414,10 @@ example : (mainLoop 50 demoL 21 St.init).map flatLog =
     some [.eff 1, .ret .yielded, .eff 7, .ret .waiting, .eff 3, .ret .yielded, .eff 7, .ret .waiting, .eff 3,
           .eff 5, .ret .waiting, .ret .exited] :=
   invocations_concat 50 demoL 20 St.init _ (relabel_wf demo) rfl demo_seq
+
+/-- `pt_always_label_or_zero` / `invoke_good` apply to the demo from PT_INIT -/
+example : ∀ k logs, mainLoop 50 demoL k St.init = some logs →
+    ∀ x, x ∈ logs → (∃ t c, x.1 = t ++ [Ev.ret c]) ∧ (x.2 = 0 ∨ x.2 ∈ labels demoL) :=
+  fun k logs h => pt_always_label_or_zero 50 demoL (relabel_wf demo) k St.init logs (good_init _) h
 
 end Librfn.C08
